@@ -181,7 +181,8 @@ fn extensions(run: &mut Run, req: &Value) -> Option<AuthenticationExtensionsClie
     if cred_props.is_none() && prf.is_none() && prf_already_hashed.is_none() {
         None
     } else {
-        Some(AuthenticationExtensionsClientInputs { cred_props, prf, prf_already_hashed })
+        #[allow(clippy::needless_update)]
+        Some(AuthenticationExtensionsClientInputs { cred_props, prf, prf_already_hashed, ..Default::default() })
     }
 }
 
@@ -319,6 +320,10 @@ fn register(run: &mut Run, req: &Value) -> Value {
                         "discouraged" => Some(ResidentKeyRequirement::Discouraged),
                         "preferred" => Some(ResidentKeyRequirement::Preferred),
                         "required" => Some(ResidentKeyRequirement::Required),
+                        // a string of a later WebAuthn level, read the way a relying party's options arrive
+                        "unknown" => serde_json::from_value::<AuthenticatorSelectionCriteria>(json!({"residentKey": "required-if-supported"}))
+                            .ok()
+                            .and_then(|c| c.resident_key),
                         _ => None,
                     },
                     require_resident_key: req["requireRk"].as_bool().unwrap(),
